@@ -12,7 +12,9 @@ THEOREMS = ["C05_total", "C05_streaming_dlw", "C05_streaming_mpx", "C05_streamin
             "C05_any_partition", "C05_confinement", "C05_confinement_init", "C05_valid_chunks_untouched", "C05_verified",
             "C05_verified_init", "C05_mismatch_zeroed", "C05_streaming_refuted_zero_length",
             "C05_lit_decodes_next", "C05_lit_contract", "C05_lit_finds_range", "C05_parse_dec_value", "C05_header_boundary",
-            "C05_mp_prefix", "C05_mp_any_partition", "C05_mp_placement", "C05_transfer"]
+            "C05_mp_prefix", "C05_mp_any_partition", "C05_mp_placement", "C05_transfer",
+            "C05_reset_reestablishes", "C05_reset_clears", "C05_session", "C05_session_start", "C05_session_valid_untouched",
+            "C05_retry_plain", "C05_retry_multipart"]
 ASSUMPTIONS = [
     "models Dl/DlWrite.v and Dl/Multipart.v are hand transcriptions of dl_write_range / multipart_extract / "
     "multipart_get_boundary and the two callbacks, tied by differential execution on every case",
@@ -33,6 +35,10 @@ ASSUMPTIONS = [
     "I/O is fault free in this model (seek/write always succeed; C12 covers faults); int wb truncation in dl_write "
     "needs a >= 2 GiB in-memory buffer and is out of scope",
     "streaming theorems need non-empty fragments and no zero-length entries in the range index; zck_get_missing_range (after fix 1261c1f) never creates one, the refuted example documents what happened before",
+    "sessions: Dl/Session.v transcribes zck_dl_reset field by field and zck_get_missing_range(zck, -1) (all chunks with "
+    "valid == 0 and stored bytes); the harness drives one zckDL like src/zck_dl.c (reset, missing range, set_range before "
+    "every transfer) and the results are compared with the model; zckdl's max_ranges limit and its validity re-scan are "
+    "not part of the session model",
     "harness builds the target zckCtx by hand (index_new_chunk, set_chunk_hash_type, temp file) and, for 'auto' cases, "
     "obtains the range from the real zck_get_missing_range",
 ]
